@@ -1,9 +1,9 @@
 #!/bin/bash
 # runs every registered check (quick tier by default) on the current /repo tree and prints a summary
 tier=${1:-quick}
-cd /verif
+cd "$(dirname "$0")"
 git -C /repo status --porcelain --untracked-files=no | grep -q . && { echo "WARNING: /repo has uncommitted changes"; }
-for p in $(python3 -c "import sys; sys.path.insert(0,'/verif'); from checks_table import CHECKS; print(' '.join(sorted(CHECKS)))"); do
+for p in $(python3 -c "import sys; sys.path.insert(0,'.'); from checks_table import CHECKS; print(' '.join(sorted(CHECKS)))"); do
   t0=$(date +%s)
   out=$(./check $p --tier $tier 2>&1); rc=$?
   echo "$p rc=$rc $(( $(date +%s)-t0 ))s :: $(echo "$out" | grep -v '^KNOWN-FINDING' | tail -1 | cut -c1-160)"
